@@ -21,7 +21,16 @@ def build_items(tier, rng, scratch, out):
     out.add('transitions', res.generated)
     out.cov(strings_bound=n_main, strings_enumerated=len(strs), exhaustive_strings=True)
     fstr, res2 = inputs.tlc_strings(scratch.sub('fstrings'), 5 if tier == 'thorough' else 4, inputs.FSTR_ALPHABET)
-    ind, res3 = inputs.tlc_strings(scratch.sub('indstrings'), 6 if tier == 'thorough' else 4, inputs.INDENT_ALPHABET)
+    if tier == 'thorough':
+        # 20^5 = 3.2 M strings of 5 symbols: all of <= 4 symbols are kept, the 5-symbol ones are sampled (the full set
+        # needs > 10 GB in the recorder processes: an earlier thorough run was killed by the kernel's OOM killer)
+        nsym = __import__('re').compile('|'.join(__import__('re').escape(a) for a in
+                                                 sorted(inputs.FSTR_ALPHABET, key=len, reverse=True)))
+        short_f = [t for t in fstr if len(nsym.findall(t)) <= 4]
+        long_f = [t for t in fstr if len(nsym.findall(t)) > 4]
+        fstr = short_f + rng.sample(long_f, min(len(long_f), 400000))
+        del long_f
+    ind, res3 = inputs.tlc_strings(scratch.sub('indstrings'), 5 if tier == 'thorough' else 4, inputs.INDENT_ALPHABET)
     out.add('states', res2.distinct + res3.distinct)
     out.add('transitions', res2.generated + res3.generated)
     out.cov(fstring_strings=len(fstr), indent_strings=len(ind))
